@@ -227,6 +227,11 @@ type plRun struct {
 	reordered, delBeforeInsert, evictBetweenDelete, raced bool
 	// loading store on top (cases with Loading)
 	readOracle        bool         // C08 pool tier
+	hitFail           *verifkit.Failure
+	staleInBatch      bool               // some drained batch contained a hit whose entry had been removed meanwhile
+	batch             []*Entry[int, int] // entries hit since the read stripe was last drained (stripe 0, 16 slots)
+	batchKeys         []int              // the key each of them had when it was hit (the object may be recycled before the drain)
+	drains            int
 	keyReads          map[int]int  // hits per key over the whole case (a buffered hit on an earlier incarnation of the same key may legitimately be credited to the key's next incarnation: same key, same hash)
 	nCalls            atomic.Int64 // listener calls so far (read by the Wait caller of a marker batch)
 	slow              atomic.Bool  // the listener sleeps 300 us per call while a marker batch is applied
@@ -407,6 +412,8 @@ func (r *plRun) apiLoad(k, cost int, ttl int64) {
 	r.seq++
 	v := r.seq
 	r.loadVal, r.loadCost, r.loadTTL, r.loaderRan = v, cost, ttl, false
+	he := r.mapGet(k)
+	pre := uint(r.s.policy.hitsInSample) + uint(r.s.policy.missesInSample)
 	_, _ = r.ls.Get(context.Background(), k)
 	e := r.mapGet(k)
 	if !r.loaderRan {
@@ -414,6 +421,9 @@ func (r *plRun) apiLoad(k, cost int, ttl int64) {
 			in.reads++ // answered from the cache: a hit
 		}
 		r.keyReads[k]++
+		if f := r.noteHit(he, pre); f != nil {
+			r.hitFail = f
+		}
 	}
 	if !r.loaderRan || e == nil || e.value != v {
 		r.lastInc = nil
@@ -507,6 +517,64 @@ func (r *plRun) afterStep(op string, delKey int) *verifkit.Failure {
 	}
 	r.allCalls += len(r.calls)
 	r.calls = r.calls[:0]
+	return nil
+}
+
+// noteHit records a hit for the delivered-reads oracle (C08 at store level): all hits go to stripe 0
+// and the 16th one drains it, applying the whole batch to the policy before the Get returns. Right
+// after a drain - the policy defers demotions to the next insert - every entry of the batch that is
+// still the tracked, not removed entry it was when it was hit and that lives in the main region
+// must be in the protected region: a delivered hit promotes from probation and keeps protected
+// entries protected. An entry behind a stale one in the batch is no exception.
+func (r *plRun) noteHit(e *Entry[int, int], sampleBefore uint) *verifkit.Failure {
+	if e == nil {
+		return nil
+	}
+	r.batch = append(r.batch, e)
+	r.batchKeys = append(r.batchKeys, e.key)
+	if len(r.batch) < 16 {
+		return nil
+	}
+	batch, keys := r.batch, r.batchKeys
+	r.batch, r.batchKeys = nil, nil
+	r.drains++
+	if !r.readOracle {
+		return nil
+	}
+	if sampleBefore+16 > r.s.policy.sketch.SampleSize {
+		// the hill climber may have run in the middle of this batch: resizing the window demotes from the
+		// protected region and moves entries into the window, so regions say nothing about single hits
+		r.x.Class("drained-batch-not-judged(climber may have run)")
+		return nil
+	}
+	stale := -1
+	for i, be := range batch {
+		if be.flag.IsRemoved() || be.flag.IsDeleted() {
+			if stale < 0 {
+				stale = i
+			}
+			continue
+		}
+		if be.key != keys[i] {
+			// the object was handed out again for another key (entry pool): the event is stale and must be
+			// dropped - that side is the invented-access oracle's business
+			if stale < 0 {
+				stale = i
+			}
+			continue
+		}
+		cur := r.mapGet(be.key)
+		if cur != be || be.meta.prev == nil || be.flag.IsWindow() {
+			continue // recycled, gone, not yet announced to the policy, or in the window (no region change to observe)
+		}
+		if !be.flag.IsProtected() {
+			r.staleInBatch = r.staleInBatch || stale >= 0
+			return r.failf("reads/delivered-hit-not-applied", "the read stripe was drained (16 hits) and the hit on key %d (position %d of the batch) was not applied: its entry is tracked in the main region, not removed, and still in probation (first stale event of the batch at position %d; entry pool: %v)", be.key, i, stale, r.c.Pool)
+		}
+	}
+	if stale >= 0 {
+		r.staleInBatch = true
+	}
 	return nil
 }
 
@@ -757,6 +825,9 @@ func execPipelineInner(c plCase, x *verifkit.Ctx, accounting, notify, reclaim bo
 		case "set":
 			if st.Load && r.ls != nil {
 				r.apiLoad(st.K, st.Cost, st.TTL)
+				if r.hitFail != nil {
+					return r.hitFail
+				}
 			} else {
 				r.apiSet(st.K, st.Cost, st.TTL)
 			}
@@ -774,11 +845,16 @@ func execPipelineInner(c plCase, x *verifkit.Ctx, accounting, notify, reclaim bo
 			r.collect()
 		case "get":
 			for j := 0; j < st.N; j++ {
+				he := r.mapGet(st.K)
+				pre := uint(r.s.policy.hitsInSample) + uint(r.s.policy.missesInSample)
 				if _, ok := r.s.Get(st.K); ok {
 					if in := r.resident[st.K]; in != nil {
 						in.reads++
 					}
 					r.keyReads[st.K]++
+					if f := r.noteHit(he, pre); f != nil {
+						return f
+					}
 				}
 			}
 		case "deliver":
@@ -895,6 +971,8 @@ func execPipelineInner(c plCase, x *verifkit.Ctx, accounting, notify, reclaim bo
 	x.ClassIf(r.evictBetweenDelete, "evict-or-expire-between-delete-and-event")
 	x.ClassIf(r.raced, "write-inside-expiry-window")
 	x.ClassIf(c.Pool, "entry-pool")
+	x.ClassIf(r.drains > 0, "read-stripe-drained")
+	x.ClassIf(r.staleInBatch, "drained-batch-with-a-stale-hit")
 	if r.reordered || r.delBeforeInsert || r.evictBetweenDelete || r.raced {
 		x.NonTrivial()
 	}
@@ -1034,6 +1112,44 @@ func TestVerifC08Pool(t *testing.T) {
 			return f
 		},
 		Rule:        "C08 (entry-pool tier): the pipeline-owner generator with UseEntryPool(true) plus the scenario 'buffered hits on a TTL'd key, the key expires, its Entry object is handed out again for another key, that key leaves the window, the stripe drains'; after every step no entry whose key was never hit by a Get and whose cost never changed may sit in the protected region (only a delivered hit or a cost update promotes); cases that would deliver a queued write event to a recycled Entry object are excluded (known finding C05-pool-stale-event)",
+		Assumptions: plAssumptions,
+	})
+}
+
+
+// C08 (delivered reads): what the lossy buffer does deliver must reach the policy. The pipeline-owner
+// generator (entry pool on or off) plus the scenario 'hits on A stay buffered, A expires, hits on B fill
+// the stripe'; right after every drain each hit entry that is still tracked in the main region must be
+// in the protected region (noteHit). Seeded change C09f: one stale event ended the whole batch.
+func TestVerifC08Reads(t *testing.T) {
+	vkOwnPipeline()
+	plAlwaysAvoidStale, plReadOracle = true, true
+	gen := genPipeline(func(t *rapid.T) bool { return rapid.Bool().Draw(t, "pool") }, true)
+	verifkit.Run(t, verifkit.Spec[plCase]{
+		ID: "C08",
+		Gen: func(t *rapid.T) plCase {
+			c := gen(t)
+			if c.MaxSize < 8 {
+				c.MaxSize += 8
+			}
+			a, b, d := c.Keys, c.Keys+1, c.Keys+2 // keys the generated steps never touch
+			n := rapid.IntRange(1, 12).Draw(t, "staleHits")
+			sc := []plStep{{Op: "set", K: b, Cost: 1}, {Op: "set", K: d, Cost: 1}, {Op: "set", K: a, Cost: 1, TTL: 1000000}, {Op: "quiesce"},
+				{Op: "get", K: a, N: n}, {Op: "tick", Dt: 2000000000}, {Op: "quiesce"}, {Op: "get", K: b, N: 16 - n}, {Op: "get", K: d, N: 16}, {Op: "quiesce"}}
+			c.Steps = append(sc, c.Steps...)
+			return c
+		},
+		Exec: func(c plCase, x *verifkit.Ctx) *verifkit.Failure {
+			f := execPipeline(c, x, false, false, false)
+			if f != nil && (strings.HasPrefix(f.Sig, "pool-stale-event/") || !strings.HasPrefix(f.Sig, "reads/")) && !f.Sticky {
+				return nil // everything but the read oracles belongs to C02/C05 (and to their known finding with the pool on)
+			}
+			if f == nil && !x.Excluded() {
+				x.NonTrivial()
+			}
+			return f
+		},
+		Rule:        "C08 (delivered reads): the pipeline-owner generator (entry pool on in half of the cases) preceded by the scenario 'n hits on a TTL'd key stay buffered, the key expires, 16-n hits on a key in the main region fill the stripe'; all hits go to stripe 0, whose 16th hit drains it; right after every drain each hit entry that is still the tracked, not removed entry of its key and lives in the main region must be in the protected region (the policy defers demotions to the next insert), and no entry whose key was never hit and whose cost never changed may be there",
 		Assumptions: plAssumptions,
 	})
 }
